@@ -34,8 +34,64 @@ fn prefix(w: &mut World<Tok>, out: &mut Out, rng: &mut Rng) {
     }
 }
 
+/// the sequential `*_with_index` iterators on matrices of more than 2^32 (zero-sized) elements,
+/// entered from the back and from the front: the reported index of the item at memory position p
+/// is the one `get` accepts for it
+fn huge_zero_sized_with_index(out: &mut Out) {
+    use matreex::{Index, Matrix, Order};
+    out.case("with_index on huge zero-sized matrices");
+    out.nontrivial();
+    let b32 = 1usize << 32;
+    for (r, c) in [(b32, 3usize), (3, b32), (b32 + 1, 2), (2, b32 + 1), (b32 - 1, 1usize << 31), (1, usize::MAX), (usize::MAX, 1)] {
+        for order in [Order::RowMajor, Order::ColMajor] {
+            let n = r * c;
+            let expect = |p: usize| -> (usize, usize) {
+                let (maj, min) = if order == Order::RowMajor { (r, c) } else { (c, r) };
+                let _ = maj;
+                let (a, b) = (p / min, p % min);
+                if order == Order::RowMajor { (a, b) } else { (b, a) }
+            };
+            let mk = || { let mut v: Vec<()> = Vec::new(); unsafe { v.set_len(n) }; crate::common::mk_from(order, r, c, v) };
+            for variant in ["wi", "wi_mut", "into_wi"] {
+                let op = format!("oracle zst-with-index {variant} {r} {c} {}", ord_ch(order));
+                out.announce(&op);
+                // (the adaptors step one item at a time: only positions near the two ends can be reached)
+                let backs: Vec<usize> = [0usize, 1, 2, 3, 5, c, r, c.saturating_mul(2), r.saturating_mul(2), 1000].into_iter().filter(|&k| k <= 1000).collect();
+                let got: Option<Vec<(usize, Option<Index>)>> = catch(|| {
+                    let mut res = Vec::new();
+                    for &k in &backs {
+                        let mut m: Matrix<()> = mk();
+                        let i = match variant {
+                            "wi" => m.iter_elements_with_index().nth_back(k).map(|x| x.0),
+                            "wi_mut" => m.iter_elements_mut_with_index().nth_back(k).map(|x| x.0),
+                            _ => m.into_iter_elements_with_index().nth_back(k).map(|x| x.0),
+                        };
+                        res.push((n - 1 - k, i));
+                    }
+                    // from the front: a few single steps
+                    let m: Matrix<()> = mk();
+                    for (p, (i, _)) in m.iter_elements_with_index().take(5).enumerate() { res.push((p, Some(i))); }
+                    res
+                });
+                match got {
+                    None => out.oracle_fail(&format!("{op}: panicked")),
+                    Some(items) => for (p, i) in items {
+                        let (er, ec) = expect(p);
+                        match i {
+                            Some(i) if (i.row, i.col) == (er, ec) => {}
+                            other => out.oracle_fail(&format!("{op}: the item at memory position {p} was reported at {:?}, expected ({er}, {ec})", other.map(|i| (i.row, i.col)))),
+                        }
+                    }
+                }
+                out.observe("ok");
+            }
+        }
+    }
+}
+
 pub fn run_c15(out: &mut Out, rng: &mut Rng, tier: Tier) -> String {
     ledger_reset();
+    huge_zero_sized_with_index(out);
     let bound = if tier == Tier::Quick { 4 } else { 5 };
     for nr in 0..=bound {
         for nc in 0..=bound {
